@@ -4,8 +4,9 @@
   Property theorems only. Models: GeoModel/Triangulate.lean (ear-cut glue, the constrained
   Delaunay inside filter, `find_boundary_lines`), GeoModel/MonoPoly.lean (point location in a
   monotone piece, after the `fix:` commit), GeoModel/Tiling.lean (the exact tiling checker).
-  The engines (earcutr, spade, the sweep builder) are parameters: no theorem is about them; their
-  outputs are decided per case by `Tiling.tiles`.
+  The engines (earcutr, spade) are parameters: no theorem is about them; their outputs are decided
+  per case by `Tiling.tiles`. The builder of the monotone pieces is modelled (GeoModel/MonoBuildSweep.lean,
+  MonoBuild.lean, compared with the code by `C10.monobuild`); the last section is about that model.
 -/
 import GeoModel.Triangulate
 import GeoModel.MonoPoly
@@ -13,6 +14,11 @@ import GeoModel.Tiling
 import GeoProofs.Lemmas.C10Earcut
 import GeoProofs.Lemmas.C10Stitch
 import GeoProofs.Lemmas.C10Mono
+import GeoProofs.Lemmas.MONOInit
+import GeoProofs.Lemmas.MONOSweepC
+import GeoProofs.Lemmas.MONOFuelD
+import GeoProofs.Lemmas.MONOAtPoint
+import GeoProofs.Lemmas.MONOChain
 import GeoProofs.Props.C19
 import Mathlib.Tactic.NormNum
 
@@ -326,5 +332,168 @@ theorem pieceArea_triangle (a b c : Pt) :
   rw [h]
   unfold rabs
   split <;> split <;> grind
+
+/-! ### the builder of the monotone pieces (`monotone_subdivision`, model `MonoBuild.monotoneSubdivision`) -/
+
+open Geo.MonoBuild Geo.Proofs.MONO in
+/-- [T] every coordinate of every piece that `monotone_subdivision` emits is a coordinate of an input polygon —
+for all inputs, valid or not (sweep-state invariant `InvV`: the end points of all segments, including the ones
+made by `split_at`, the points of all queued events and the coordinates of all chains are input coordinates). -/
+theorem monotone_pieces_vertices_are_input (ps : List Poly) (ms : List MonoPoly)
+    (h : monotoneSubdivision ps = some ms) :
+    ∀ m ∈ ms, ∀ p ∈ m.top ++ m.bot, p ∈ inputCoords ps := by
+  unfold monotoneSubdivision at h
+  cases hb : buildState ps with
+  | none => rw [hb] at h; cases h
+  | some st =>
+    rw [hb] at h
+    simp only [Option.map_some, Option.some.injEq] at h
+    subst h
+    intro m hm p hp
+    have := (buildState_inv hb).outs m hm
+    rcases List.mem_append.1 hp with g | g
+    · exact this.1.1 p g
+    · exact this.2.1.1 p g
+
+open Geo.MonoBuild Geo.Proofs.MONO in
+/-- [T] every emitted piece is closed by `Chain::finish_with`: both chains have at least two coordinates, start at
+the same coordinate and end at the same coordinate (the four non-order clauses of `wellFormed`) — for all inputs. -/
+theorem monotone_pieces_closed (ps : List Poly) (ms : List MonoPoly)
+    (h : monotoneSubdivision ps = some ms) :
+    ∀ m ∈ ms, 2 ≤ m.top.length ∧ 2 ≤ m.bot.length ∧ m.top.head? = m.bot.head? ∧
+      m.top.getLast? = m.bot.getLast? := by
+  unfold monotoneSubdivision at h
+  cases hb : buildState ps with
+  | none => rw [hb] at h; cases h
+  | some st =>
+    rw [hb] at h
+    simp only [Option.map_some, Option.some.injEq] at h
+    subst h
+    intro m hm
+    have := (buildState_inv hb).outs m hm
+    exact ⟨this.1.2, this.2.1.2, this.2.2.2.2.1, this.2.2.2.2.2⟩
+
+/-- the L shape of F7: two pieces -/
+def lShape : Poly := ⟨[⟨0,2⟩,⟨0,4⟩,⟨3,4⟩,⟨3,0⟩,⟨1,0⟩,⟨1,2⟩,⟨0,2⟩], []⟩
+
+example : MonoBuild.monotoneSubdivision [lShape] =
+    some [⟨[⟨1,0⟩,⟨1,2⟩,⟨3,0⟩], [⟨1,0⟩,⟨3,0⟩]⟩,
+          ⟨[⟨0,2⟩,⟨0,4⟩,⟨3,4⟩], [⟨0,2⟩,⟨1,2⟩,⟨3,0⟩,⟨3,4⟩]⟩] := by decide +kernel
+
+open Geo.MonoBuild Geo.Proofs.MONO in
+/-- [T] the sweep visits its event points in strictly increasing lexicographic order, each point once — for all
+inputs. `sweepPoints ps` is the sequence of points handled by the successive calls of `process_next_pt`
+(`MONOSweepC.sweepTrace`); the invariant `SInv` behind it: the event queue is a heap in the sweep order
+(`Event::cmp` reversed), every segment is a proper line, a `LineLeft` event sits at its segment's left end, and
+`handle_event` only ever queues events at or after the point being handled (split points are end points of the
+segment being inserted or lie strictly to its right). -/
+theorem monotone_sweep_points_increasing (ps : List Poly) : lexSorted (sweepPoints ps) = true :=
+  (sweepTrace_sorted _ _ _ (initState_sinv ps)).1
+
+example : Geo.Proofs.MONO.sweepPoints [lShape] = [⟨0,2⟩, ⟨0,4⟩, ⟨1,0⟩, ⟨1,2⟩, ⟨3,0⟩, ⟨3,4⟩] := by decide +kernel
+
+open Geo.MonoBuild Geo.Proofs.MONO in
+/-- [T] the model is total by fuel, and the fuel is irrelevant: with any fuel `F ≥ fuelFor n` (`n` input lines) the
+model gives the same answer as with `fuelFor n` — so `none` always stands for a panic of the code (`unwrap`,
+`assert!`, `expect`, index out of range), never for an exhausted bound. Termination measure
+`mu = #queued events + 3·Σ_segments #(end points of input lines strictly inside the segment)`: `split_at` cuts at such
+an end point strictly inside (−1 in the sum, +3 events), every popped event is −1, nothing else touches it; each
+popped event costs at most three levels of the nested recursion `handle_event` → round → `while`. -/
+theorem monotone_fuel_irrelevant (ps : List Poly) (F : Nat) (hF : fuelFor (initState ps).segs.length ≤ F) :
+    (buildLoop F F (initState ps)).map (·.outputs) = monotoneSubdivision ps := by
+  unfold monotoneSubdivision
+  rw [buildState_fuel ps F hF]
+
+example : (MonoBuild.buildLoop 100000 100000 (MonoBuild.initState [lShape])).map (·.outputs) =
+    MonoBuild.monotoneSubdivision [lShape] := monotone_fuel_irrelevant _ _ (by decide +kernel)
+
+open Geo.MonoBuild Geo.Proofs.MONO in
+/-- [T] the contract of `SimpleSweep::next_point` that `process_next_pt` relies on, for all inputs: in every state of a
+run (the sweep invariant `SInv` holds initially and after every `process_next_pt`), when `next_point`, called with empty
+`incoming` / `outgoing`, returns the point `pt`, every segment it handed over as ending has its right end at `pt`
+(so `fix_top` sets the tip of its chain to `pt`) and every segment handed over as starting has its left end at `pt`
+(so the chains started by `from_segment_pair(pt, ..)` are increasing). Splits made while the events of `pt` are handled
+never cut a segment that ended at `pt`, and never move a left end. -/
+theorem monotone_next_point_contract (ps : List Poly) :
+    SInv (initState ps) ∧
+    (∀ (fuel : Nat) (st st' : St), SInv st → processNextPt fuel st = some (st', true) → SInv st') ∧
+    (∀ (fuel : Nat) (st st' : St) (pt : Pt), SInv st → st.incoming = [] → st.outgoing = [] →
+      nextPoint fuel st = some (st', some pt) →
+      (∀ i ∈ st'.incoming, (st'.lineOf i).map LoP.right = some pt) ∧
+      (∀ o ∈ st'.outgoing, (st'.lineOf o).map LoP.left = some pt)) := by
+  refine ⟨initState_sinv ps, ?_, ?_⟩
+  · intro fuel st st' hi h
+    obtain ⟨_, _, i1, _⟩ := processNextPt_sinv hi h
+    exact i1
+  · intro fuel st st' pt hi h1 h2 h
+    have io := nextPoint_io hi ⟨h1, h2⟩ h
+    refine ⟨?_, ?_⟩
+    · intro i hi'
+      obtain ⟨l, hl, e⟩ := io.inc i hi'
+      rw [hl]; simp [e]
+    · intro o ho
+      obtain ⟨l, hl, e⟩ := io.out o ho
+      rw [hl]; simp [e]
+
+/-- the first `next_point` on the L shape: the two segments starting at `(0,2)` -/
+example : (MonoBuild.nextPoint 1000 (MonoBuild.initState [lShape])).map (fun r => (r.1.incoming, r.1.outgoing, r.2)) =
+    some ([], [0, 5], some ⟨0, 2⟩) := by decide +kernel
+
+open Geo.MonoBuild Geo.Proofs.MONO in
+/-- [T] the chain operations of the builder keep a chain lexicographically increasing under explicit conditions on the
+chain's last coordinates, and `finish_with` of two increasing chains is a `wellFormed` piece:
+`from_segment_pair(pt, r, _)` needs `pt < r` (given by `monotone_next_point_contract`: the segment starts at `pt`);
+`push(p)` needs tip `< p`; `fix_top(rt)` and `swap_at_top(pt)` need the coordinate *before* the tip to lie before the new
+coordinate. NOT proved: that the builder only ever pushes onto chains whose tip satisfies these conditions — i.e. that
+every emitted piece is `wellFormed`. That is an ownership invariant (no chain index is held at the same time by two of: the
+`chain_idx` of a segment that has started and not ended, a registered `help`); the condition is decided on the
+implementation's output of every generated case by the clause `piece-chains-not-lexicographically-increasing`, and the
+model's own pieces were well formed on all 400 000 generated inputs of an offline run, arbitrary vertex sequences
+included. -/
+theorem monotone_chain_ops_keep_order :
+    (∀ pt r : Pt, lexLt pt r = true → lexSorted [pt, r] = true) ∧
+    (∀ (c : List Pt) (p : Pt), lexSorted c = true → (∀ t, c.getLast? = some t → lexLt t p = true) →
+      lexSorted (c ++ [p]) = true) ∧
+    (∀ (c c' : List Pt) (rt : Pt), fixTop c rt = some c' → lexSorted c = true →
+      (∀ t, c.dropLast.getLast? = some t → lexLt t rt = true) → lexSorted c' = true) ∧
+    (∀ (c s n0 n1 : List Pt) (pt : Pt), swapAtTop c pt = some (s, n0, n1) → lexSorted c = true →
+      (∀ t, c.dropLast.getLast? = some t → lexLt t pt = true) →
+      lexSorted s = true ∧ lexSorted n0 = true ∧ lexSorted n1 = true ∧
+        n0.getLast? = some pt ∧ n1.getLast? = some pt) ∧
+    (∀ (a b : List Pt) (m : MonoPoly), finishWith a b = some m → lexSorted a = true → lexSorted b = true →
+      2 ≤ a.length → 2 ≤ b.length → wellFormed m = true) :=
+  ⟨fun pt r h => by simp [lexSorted, h], lexSorted_append,
+   fun _ _ _ h hs hb => fixTop_sorted h hs hb,
+   fun _ _ _ _ _ h hs hb => swapAtTop_sorted h hs hb,
+   fun _ _ _ h ha hb la lb => finishWith_wellFormed h ha hb la lb⟩
+
+/-- the split vertex `(2,2)` above a chain `(0,0),(1,0),(4,1)` whose tip `(4,1)` is the right end of the segment below -/
+example : MonoBuild.swapAtTop [⟨0,0⟩, ⟨1,0⟩, ⟨4,1⟩] ⟨2,2⟩ =
+    some ([⟨1,0⟩, ⟨4,1⟩], [⟨1,0⟩, ⟨2,2⟩], [⟨0,0⟩, ⟨1,0⟩, ⟨2,2⟩]) := by decide +kernel
+
+/-- the pieces of the model as closed rings (`MonoPoly::into_polygon`) -/
+def monoRings (ps : List Poly) : List (List Pt) :=
+  ((MonoBuild.monotoneSubdivision ps).getD []).map (fun m => (intoPolygon m).ext)
+
+/-- the first witness of the former finding C10-K2: a vertex of the second member in the interior of an edge of the
+first one -/
+def k2Witness1 : List Poly :=
+  [⟨[⟨0,3⟩,⟨1,2⟩,⟨1,1⟩,⟨3,1⟩,⟨3,2⟩,⟨2,2⟩,⟨2,3⟩,⟨0,3⟩], []⟩, ⟨[⟨2,0⟩,⟨3,0⟩,⟨2,1⟩,⟨2,0⟩], []⟩]
+
+/-- the second witness: a hole touching the shell at a hole vertex inside a shell edge, a second hole further left -/
+def k2Witness2 : List Poly :=
+  [⟨[⟨-22,25⟩,⟨-30,0⟩,⟨0,0⟩,⟨0,30⟩,⟨-22,25⟩],
+    [[⟨-4,7⟩,⟨-11,0⟩,⟨-1,2⟩,⟨-4,7⟩], [⟨-20,15⟩,⟨-22,14⟩,⟨-22,15⟩,⟨-20,15⟩]]⟩]
+
+/-- [T] (witness lemma for the repaired finding C10-K2) on both witnesses the builder, as fixed by geo d3134ab7
+(helper cells cleared at a segment's `LineLeft` event) and mirrored by the model, does not panic, and its pieces pass
+the exact tiling checker against the input. Before the fix the code panicked on both (a pending `help` copied by
+`split_at` was served twice) and so did the model. -/
+theorem monotone_k2_witnesses_tile :
+    (MonoBuild.monotoneSubdivision k2Witness1).isSome = true ∧
+    tiles .notOutside (monoRings k2Witness1) (.multiPolygon k2Witness1) = true ∧
+    (MonoBuild.monotoneSubdivision k2Witness2).isSome = true ∧
+    tiles .notOutside (monoRings k2Witness2) (.multiPolygon k2Witness2) = true := by
+  decide +kernel
 
 end Geo.Proofs.C10
